@@ -35,7 +35,8 @@ ASSUMPTIONS = ['float32 rounding of the un-whitened template: rtol 1e-5 and deci
 def _case(draw):
     dense = draw(st.sampled_from([True, True, False]))
     spec = draw(D.dataset_spec(dense=dense, raw=False, features=False, tfeatures=False,
-                               naming='ks', max_nc=24 if dense else 10, curated=None))
+                               naming='ks', max_nc=24 if dense else 10, curated=None,
+                               probe_labels=True))
     nc = spec['nc']
     explicit = [draw(st.lists(st.integers(0, nc - 1), min_size=1, max_size=min(nc, 5), unique=True))
                 for _ in range(2)]
